@@ -401,3 +401,71 @@ def fold_binop(op, a, b):
     if op == '||':
         return int(bool(a) or bool(b))
     return None
+
+
+def init_fields(u, var):
+    """{dotted field path: constant | ('ref', name) | None} of the initialiser of global `var` (struct/union, nested).
+    Field names come from the record declarations (struct InitListExprs list their fields in declaration order, a union
+    InitListExpr names its active member)."""
+    g = u.globals.get(var)
+    if g is None or not g.get('inner'):
+        return None
+    out = {}
+
+    def rec_of(qt):
+        qt_raw = qt or ''
+        qt = qt_raw.replace('const ', '').replace('struct ', '').replace('union ', '').strip()
+        if qt in u.records:
+            return u.records[qt]
+        td = getattr(u, 'typedefs', {}).get(qt)
+        if td:
+            return rec_of(td)
+        import re as _re
+        m = _re.search(r'\((?:unnamed|anonymous)(?: struct| union)? at (.*):(\d+):(\d+)\)', qt_raw)
+        if m:
+            cache = u.__dict__.setdefault('_anon_records', None)
+            if cache is None:
+                cache = {}
+                for x in walk(u.root):
+                    if kind(x) == 'RecordDecl' and not x.get('name'):
+                        loc = x.get('loc', {})
+                        loc = loc.get('expansionLoc') or loc
+                        cache[(loc.get('line'), loc.get('col'))] = x
+                u.__dict__['_anon_records'] = cache
+            return cache.get((int(m.group(2)), int(m.group(3))))
+        return None
+
+    def walk_init(n, prefix, qt):
+        n0 = strip(n)
+        k = kind(n0)
+        if k == 'InitListExpr':
+            if n0.get('field'):
+                fld = n0['field']
+                walk_init(inner(n0)[0], prefix + [fld.get('name')], fld.get('type', {}).get('qualType')) if inner(n0) else None
+                return
+            tq = n0.get('type', {}).get('desugaredQualType') or n0.get('type', {}).get('qualType') or ''
+            if tq.rstrip().endswith(']'):
+                for i_, c in enumerate(inner(n0)):
+                    walk_init(c, prefix + ['[%d]' % i_], None)
+                return
+            r = rec_of(tq)
+            fields = [f for f in inner(r) if f.get('kind') == 'FieldDecl'] if r else []
+            for f, c in zip(fields, inner(n0)):
+                walk_init(c, prefix + [f.get('name')], f.get('type', {}).get('qualType'))
+            return
+        if k == 'ImplicitValueInitExpr':
+            out['.'.join(prefix)] = 0
+            return
+        v = u.const_value(n0)
+        if v is not None:
+            out['.'.join(prefix)] = v
+            return
+        nn = strip_all_casts(n0)
+        if kind(nn) == 'UnaryOperator' and nn.get('opcode') == '&':
+            nn = strip_all_casts(nn['inner'][0])
+        if kind(nn) == 'DeclRefExpr':
+            out['.'.join(prefix)] = ('ref', nn['referencedDecl'].get('name'))
+            return
+        out['.'.join(prefix)] = None
+    walk_init(g['inner'][0], [], qual_type(g))
+    return out
